@@ -642,6 +642,11 @@ static var Tree_Iter_Init(var self) {
 }
 
 static var Tree_Iter_Next(var self, var curr) {
+#if CELLO_NULL_CHECK == 1
+  if (curr is NULL) {
+    return throw(ValueError, "Received NULL as iteration position");
+  }
+#endif
   struct Tree* m = self;
   
   var node = (char*)curr - sizeof(struct Header) - 3 * sizeof(var);
@@ -678,6 +683,11 @@ static var Tree_Iter_Last(var self) {
 }
 
 static var Tree_Iter_Prev(var self, var curr) {
+#if CELLO_NULL_CHECK == 1
+  if (curr is NULL) {
+    return throw(ValueError, "Received NULL as iteration position");
+  }
+#endif
   struct Tree* m = self;
   
   var node = (char*)curr - sizeof(struct Header) - 3 * sizeof(var);
